@@ -14,6 +14,9 @@ package websocket
 //@   lock_level counterMutex = 70
 //@   lock_level idsMutex = 80
 
+//@ type handlerWithMetrics
+//@   immutable appKey, publicEndpoint : HandleConnect
+
 //@ func (*websocket.handlerWithLogs).Receiver$1
 //@   goroutine receiver
 
@@ -634,133 +637,133 @@ package websocket
 //@ func (websocket.Handler).HandlePing
 //@   event
 //@   modifies all *
-//@   preserves websocket.handler., cell:, ghost.ctxcancelled, ghost.evn:handleDisconnect
+//@   preserves websocket.handler., websocket.handlerWithMetrics., websocket.handlerWithLogs., cell:, ghost.ctxcancelled, ghost.evn:handleDisconnect
 //@   allocates
 
 //@ func (websocket.Handler).HandlePingResponse
 //@   event
 //@   modifies all *
-//@   preserves websocket.handler., cell:, ghost.ctxcancelled, ghost.evn:handleDisconnect
+//@   preserves websocket.handler., websocket.handlerWithMetrics., websocket.handlerWithLogs., cell:, ghost.ctxcancelled, ghost.evn:handleDisconnect
 //@   allocates
 
 //@ func (websocket.Handler).HandleSignedLatency
 //@   event
 //@   modifies all *
-//@   preserves websocket.handler., cell:, ghost.ctxcancelled, ghost.evn:handleDisconnect
+//@   preserves websocket.handler., websocket.handlerWithMetrics., websocket.handlerWithLogs., cell:, ghost.ctxcancelled, ghost.evn:handleDisconnect
 //@   allocates
 
 //@ func (websocket.Handler).HandleEntityAdd
 //@   event
 //@   modifies all *
-//@   preserves websocket.handler., cell:, ghost.ctxcancelled, ghost.evn:handleDisconnect
+//@   preserves websocket.handler., websocket.handlerWithMetrics., websocket.handlerWithLogs., cell:, ghost.ctxcancelled, ghost.evn:handleDisconnect
 //@   allocates
 
 //@ func (websocket.Handler).HandleEntityDelete
 //@   event
 //@   modifies all *
-//@   preserves websocket.handler., cell:, ghost.ctxcancelled, ghost.evn:handleDisconnect
+//@   preserves websocket.handler., websocket.handlerWithMetrics., websocket.handlerWithLogs., cell:, ghost.ctxcancelled, ghost.evn:handleDisconnect
 //@   allocates
 
 //@ func (websocket.Handler).HandleCustomMessage
 //@   event
 //@   modifies all *
-//@   preserves websocket.handler., cell:, ghost.ctxcancelled, ghost.evn:handleDisconnect
+//@   preserves websocket.handler., websocket.handlerWithMetrics., websocket.handlerWithLogs., cell:, ghost.ctxcancelled, ghost.evn:handleDisconnect
 //@   allocates
 
 //@ func (websocket.Handler).HandleEntityComponentTypeAdd
 //@   event
 //@   modifies all *
-//@   preserves websocket.handler., cell:, ghost.ctxcancelled, ghost.evn:handleDisconnect
+//@   preserves websocket.handler., websocket.handlerWithMetrics., websocket.handlerWithLogs., cell:, ghost.ctxcancelled, ghost.evn:handleDisconnect
 //@   allocates
 
 //@ func (websocket.Handler).HandleEntityComponentGetName
 //@   event
 //@   modifies all *
-//@   preserves websocket.handler., cell:, ghost.ctxcancelled, ghost.evn:handleDisconnect
+//@   preserves websocket.handler., websocket.handlerWithMetrics., websocket.handlerWithLogs., cell:, ghost.ctxcancelled, ghost.evn:handleDisconnect
 //@   allocates
 
 //@ func (websocket.Handler).HandleEntityComponentGetID
 //@   event
 //@   modifies all *
-//@   preserves websocket.handler., cell:, ghost.ctxcancelled, ghost.evn:handleDisconnect
+//@   preserves websocket.handler., websocket.handlerWithMetrics., websocket.handlerWithLogs., cell:, ghost.ctxcancelled, ghost.evn:handleDisconnect
 //@   allocates
 
 //@ func (websocket.Handler).HandleEntityComponentAdd
 //@   event
 //@   modifies all *
-//@   preserves websocket.handler., cell:, ghost.ctxcancelled, ghost.evn:handleDisconnect
+//@   preserves websocket.handler., websocket.handlerWithMetrics., websocket.handlerWithLogs., cell:, ghost.ctxcancelled, ghost.evn:handleDisconnect
 //@   allocates
 
 //@ func (websocket.Handler).HandleEntityComponentDelete
 //@   event
 //@   modifies all *
-//@   preserves websocket.handler., cell:, ghost.ctxcancelled, ghost.evn:handleDisconnect
+//@   preserves websocket.handler., websocket.handlerWithMetrics., websocket.handlerWithLogs., cell:, ghost.ctxcancelled, ghost.evn:handleDisconnect
 //@   allocates
 
 //@ func (websocket.Handler).HandleEntityComponentList
 //@   event
 //@   modifies all *
-//@   preserves websocket.handler., cell:, ghost.ctxcancelled, ghost.evn:handleDisconnect
+//@   preserves websocket.handler., websocket.handlerWithMetrics., websocket.handlerWithLogs., cell:, ghost.ctxcancelled, ghost.evn:handleDisconnect
 //@   allocates
 
 //@ func (websocket.Handler).HandleEntityComponentSubscribe
 //@   event
 //@   modifies all *
-//@   preserves websocket.handler., cell:, ghost.ctxcancelled, ghost.evn:handleDisconnect
+//@   preserves websocket.handler., websocket.handlerWithMetrics., websocket.handlerWithLogs., cell:, ghost.ctxcancelled, ghost.evn:handleDisconnect
 //@   allocates
 
 //@ func (websocket.Handler).HandleEntityComponentUnsubscribe
 //@   event
 //@   modifies all *
-//@   preserves websocket.handler., cell:, ghost.ctxcancelled, ghost.evn:handleDisconnect
+//@   preserves websocket.handler., websocket.handlerWithMetrics., websocket.handlerWithLogs., cell:, ghost.ctxcancelled, ghost.evn:handleDisconnect
 //@   allocates
 
 //@ func (websocket.Handler).HandleReceipt
 //@   event
 //@   modifies all *
-//@   preserves websocket.handler., cell:, ghost.ctxcancelled, ghost.evn:handleDisconnect
+//@   preserves websocket.handler., websocket.handlerWithMetrics., websocket.handlerWithLogs., cell:, ghost.ctxcancelled, ghost.evn:handleDisconnect
 //@   allocates
 
 //@ func (websocket.Handler).HandleEntityUpdatePose
 //@   event
 //@   modifies all *
-//@   preserves websocket.handler., cell:, ghost.ctxcancelled, ghost.evn:handleDisconnect
+//@   preserves websocket.handler., websocket.handlerWithMetrics., websocket.handlerWithLogs., cell:, ghost.ctxcancelled, ghost.evn:handleDisconnect
 //@   allocates
 
 //@ func (websocket.Handler).HandleEntityComponentUpdate
 //@   event
 //@   modifies all *
-//@   preserves websocket.handler., cell:, ghost.ctxcancelled, ghost.evn:handleDisconnect
+//@   preserves websocket.handler., websocket.handlerWithMetrics., websocket.handlerWithLogs., cell:, ghost.ctxcancelled, ghost.evn:handleDisconnect
 //@   allocates
 
 //@ func (websocket.Handler).HandleParticipantJoin
 //@   event
 //@   modifies all *
-//@   preserves websocket.handler., cell:, ghost.ctxcancelled, ghost.evn:handleDisconnect
+//@   preserves websocket.handler., websocket.handlerWithMetrics., websocket.handlerWithLogs., cell:, ghost.ctxcancelled, ghost.evn:handleDisconnect
 //@   allocates
 
 //@ func (websocket.Handler).HandleWithModule
 //@   event
 //@   modifies all *
-//@   preserves websocket.handler., cell:, ghost.ctxcancelled, ghost.evn:handleDisconnect
+//@   preserves websocket.handler., websocket.handlerWithMetrics., websocket.handlerWithLogs., cell:, ghost.ctxcancelled, ghost.evn:handleDisconnect
 //@   allocates
 
 //@ func (websocket.Handler).HandleDisconnect
 //@   event
 //@   modifies all *
-//@   preserves websocket.handler., cell:, ghost.ctxcancelled, ghost.evn:handleDisconnect
+//@   preserves websocket.handler., websocket.handlerWithMetrics., websocket.handlerWithLogs., cell:, ghost.ctxcancelled, ghost.evn:handleDisconnect
 //@   allocates
 
 //@ func (websocket.Handler).HandleConnect
 //@   event
 //@   modifies all *
-//@   preserves websocket.handler., cell:, ghost.ctxcancelled, ghost.evn:handleDisconnect
+//@   preserves websocket.handler., websocket.handlerWithMetrics., websocket.handlerWithLogs., cell:, ghost.ctxcancelled, ghost.evn:handleDisconnect
 //@   allocates
 
 //@ func (websocket.Handler).SendSyncClock
 //@   event
 //@   modifies all *
-//@   preserves websocket.handler., cell:, ghost.ctxcancelled, ghost.evn:handleDisconnect
+//@   preserves websocket.handler., websocket.handlerWithMetrics., websocket.handlerWithLogs., cell:, ghost.ctxcancelled, ghost.evn:handleDisconnect
 //@   allocates
 
 //@ func (websocket.Handler).CurrentParticipant
@@ -808,7 +811,7 @@ package websocket
 //@   property C04
 //@   event
 //@   modifies all *
-//@   preserves websocket.handler., cell:, ghost.ctxcancelled, ghost.evn:handleDisconnect
+//@   preserves websocket.handler., websocket.handlerWithMetrics., websocket.handlerWithLogs., cell:, ghost.ctxcancelled, ghost.evn:handleDisconnect
 //@   allocates
 //@   requires h.Handler != nil && h.dispatcher != nil && msgtype(msg) != nil
 //@   let T = msgtype(msg)
@@ -958,12 +961,13 @@ package websocket
 //@   event
 //@   requires h.Handler != nil
 //@   modifies all *
-//@   preserves websocket.handler., cell:, ghost.ctxcancelled, ghost.evn:handleDisconnect
+//@   preserves websocket.handler., websocket.handlerWithMetrics., websocket.handlerWithLogs., cell:, ghost.ctxcancelled, ghost.evn:handleDisconnect
 //@   allocates
 //@   emits {C08,C06} [HandleDisconnect(h.Handler, err)]
 
 //@ func (*websocket.handler).send
 //@   property C08
+//@   requires h.Handler != nil
 //@   assume_nonblocking A-drain: the connection's sender goroutine drains sendChan while the client keeps reading
 
 //@ func (*websocket.handler).sendMsg
@@ -986,3 +990,64 @@ package websocket
 //@     invariant unchanged(h.Handler) && h.Handler != nil && h.disconnectChan != nil && h.consumer != nil && h.dispatcher != nil
 //@     invariant {C08,C06} evtotal(handleDisconnect) == old(evtotal(handleDisconnect)) + ite(cancelled($ctx), 1, 0)
 //@     emits {C08} [disconnect(h, _)] | [SendSyncClock(H, _, _)] | [SendSyncClock(H, _, _); disconnect(h, _)] | [timer_reset(_, _); handleMessage(h, _, _, _)] | [timer_reset(_, _); handleMessage(h, _, _, _); disconnect(h, _)] | [handleDisconnect(h, _)]
+
+// The connected-clients gauge: incremented once on connect and decremented once on disconnect, on the
+// same (public endpoint, app key) label pair, which no other method of the decorator changes.
+//@ func (*websocket.handlerWithMetrics).HandleConnect
+//@   property C08
+//@   requires h.Handler != nil
+//@   ensures {C08} unchanged(h.publicEndpoint)
+//@   emits {C08} [GaugeInc(gaugechild(h.publicEndpoint, h.appKey)); HandleConnect(h.Handler, conn)]
+
+//@ func (*websocket.handlerWithMetrics).HandleDisconnect
+//@   property C08
+//@   requires h.Handler != nil
+//@   ensures {C08} unchanged(h.publicEndpoint, h.appKey)
+//@   emits {C08} [GaugeDec(gaugechild(h.publicEndpoint, h.appKey)); HandleDisconnect(h.Handler, err)]
+
+// The metrics decorator delegates every request to the wrapped handler; none of these methods writes the
+// gauge labels (checked by the immutable declaration above).
+//@ func (*websocket.handlerWithMetrics).HandleEntityAdd
+//@   property C08
+//@   requires h.Handler != nil
+
+//@ func (*websocket.handlerWithMetrics).HandleEntityDelete
+//@   property C08
+//@   requires h.Handler != nil
+
+//@ func (*websocket.handlerWithMetrics).HandleEntityUpdatePose
+//@   property C08
+//@   requires h.Handler != nil
+
+//@ func (*websocket.handlerWithMetrics).HandleParticipantJoin
+//@   property C08
+//@   requires h.Handler != nil
+
+//@ func (*websocket.handlerWithMetrics).HandlePing
+//@   property C08
+//@   requires h.Handler != nil
+
+//@ func (*websocket.handlerWithMetrics).HandlePingResponse
+//@   property C08
+//@   requires h.Handler != nil
+
+//@ func (*websocket.handlerWithMetrics).HandleSignedLatency
+//@   property C08
+//@   requires h.Handler != nil
+
+//@ func (*websocket.handlerWithMetrics).HandleWithModule
+//@   property C08
+//@   requires h.Handler != nil && module != nil
+
+//@ func (*websocket.handlerWithMetrics).Receiver
+//@   property C08
+//@   requires h.Handler != nil
+
+//@ func (*websocket.handlerWithMetrics).SendSyncClock
+//@   property C08
+//@   requires h.Handler != nil
+
+//@ func (*websocket.handlerWithMetrics).Sender
+//@   property C08
+//@   requires h.Handler != nil
+
